@@ -171,18 +171,30 @@ VM_BOUNDS = ["pre-state: operand stack = sentinel (+ the instruction's operands)
              "array sizes <= 2; names of one byte (get/set: three); --heap-size any value below 2^40 MB"]
 VM_OUTSIDE = ["stacks deeper than 4, more than 2 frames, more than 2 heap cells, longer names, arrays longer than 2",
               "the fetch loop over programs longer than 3 instructions", "--heap-size >= 2^44 MB (set_size's own multiplication overflows)"]
-VM_NOT_COVERED = ["eval_set_field under CBMC: 15.5 M variables / 68.8 M clauses, out of memory at 12 GB in propositional reduction (three harness shapes tried)",
+VM_NOT_COVERED = ["under CBMC: eval_call_function, object-method invocation, eval_object, eval_set_field and array get/set (12-50 GB); they are decided on "
+                  "their MIR by the z3 tasks vm_kernels_mir / vm_heap_kernels_mir instead",
+                  "State::from (initial state) is not covered by any engine",
+                  "eval_opcode's 17-way routing and a fetch loop that runs several instructions to the end (vm_routing, vm_loop_runs_to_end): "
+                  "every kernel is reachable from them, 12 GB exhausted; the loop's stop-at-first-failure harness fits",
+                  "eval_set_field under CBMC: 15.5 M variables / 68.8 M clauses, out of memory at 12 GB in propositional reduction (three harness shapes tried)",
                   "eval_call_function, object-method invocation and eval_object: their iterator chains (veccat!, collect, IndexMap builds) exhaust "
                   "16-50 GB under CBMC (DESIGN 2); see the MIR/z3 tasks for what is decided about them"]
 VM_ALL = ["literal", "get_local", "set_local", "get_global", "set_global", "drop_label", "jump", "branch", "return", "array",
-          "get_field", "loop_stops_at_failure", "loop_runs_to_end", "routing"]
+          "get_field", "loop_stops_at_failure"]
 
 
 VMK = lambda: SmtTask("vm_kernels_mir", "vm_kernels.py", quick=True, timeout=1200)
-VMK_FUNCS = ["interpreter::{dispatch_array_method,dispatch_array_get_method,dispatch_array_set_method,eval_call_function} and everything they call in "
+VMH = lambda: SmtTask("vm_heap_kernels_mir", "vm_heap_kernels.py", quick=True, timeout=1800)
+VMK_FUNCS = ["interpreter::{eval_array,eval_object,eval_get_field,eval_set_field} with Heap::allocate, HeapObject::{size,new_object,from_pointers}, "
+             "ObjectInstance::{get_field,set_field}, Heap::dereference(_mut): MIR/z3",
+             "interpreter::{eval_call_method,dispatch_method,dispatch_object_method,eval_call_object_method} on object receivers: MIR/z3",
+             "interpreter::{dispatch_array_method,dispatch_array_get_method,dispatch_array_set_method,eval_call_function} and everything they call in "
              "/repo (ArrayInstance::{get_element,set_element}, Pointer::as_usize, ConstantPool::get, GlobalFunctions::get, OperandStack::pop_sequence "
              "with its closures, Size::make_vector, Frame::from, FrameStack::push, InstructionPointer::{bump,get,set}, Code::next): MIR/z3"]
-VMK_BOUNDS = ["MIR/z3: arrays of length 0-2 with 0-3 arguments of any kind; function calls with 0-2 parameters, 0 or 2 locals, operand stack of "
+VMK_BOUNDS = ["MIR/z3: array creation on heaps of 0-1 cells with sizes <= 2; object creation for classes of 0-2 slots with and without a method; field "
+              "get/set on an object of two fields with any receiver; method calls on a two-object parent chain ending in null / any integer / "
+              "any boolean, method name any string, 1-2 arguments",
+              "MIR/z3: arrays of length 0-2 with 0-3 arguments of any kind; function calls with 0-2 parameters, 0 or 2 locals, operand stack of "
               "parameters(+1) values, call-site argument count 0-4; every Pointer, constant index, address and method name symbolic"]
 VMK_STUBS = ["MIR/z3 engine (smt/mirx.py): core/alloc functions are modelled from their documented semantics — Vec/slice (len, push, pop, get, "
              "index, first/last, reverse, iter, into_iter), iterator adapters over concrete lengths (map, chain, rev, take, repeat, collect into "
@@ -198,12 +210,13 @@ def vm_prop(pid, quick, extra_all=()):
     p.functions, p.bounds, p.outside, p.not_covered = VM_FUNCS + VMK_FUNCS, VM_BOUNDS + VMK_BOUNDS, VM_OUTSIDE, VM_NOT_COVERED
     p.stubs = p.stubs + VMK_STUBS
     p.smt_tasks.append(VMK())
+    p.smt_tasks.append(VMH())
     return p
 
 
 def c05():
     p = vm_prop("C05", {"literal", "get_local", "set_local", "get_global", "set_global", "drop_label", "jump", "branch", "return",
-                           "routing", "loop_runs_to_end"}, VM_ALL)
+                           "loop_stops_at_failure"}, VM_ALL)
     p.smt_tasks.append(SmtTask("c09_dispatch_mir", "c09_dispatch.py", quick=True, timeout=900))
     return p
 
@@ -314,6 +327,7 @@ def c10():
     p.add("h_c09::c09_unknown_int_len2", quick=False, timeout=900)
     p.smt_tasks.append(SmtTask("c09_dispatch_mir", "c09_dispatch.py", quick=True, timeout=900))
     p.smt_tasks.append(VMK())
+    p.smt_tasks.append(VMH())
     p.stubs = p.stubs + VMK_STUBS
     p.functions = VM_FUNCS + VMK_FUNCS + PRINT_FUNCS
     p.bounds = VM_BOUNDS + PRINT_BOUNDS
@@ -330,6 +344,7 @@ def c13():
     for sq, fk in (("la", "local"), ("l", "top")):
         p.add("h_compile::scope_%s_%s" % (sq, fk), quick=True, timeout=1500, bound="value compiled before the store")
     p.smt_tasks.append(VMK())
+    p.smt_tasks.append(VMH())
     p.stubs = p.stubs + VMK_STUBS
     p.functions = VM_FUNCS + VMK_FUNCS + COMPILE_FUNCS
     p.bounds = VM_BOUNDS + VMK_BOUNDS + COMPILE_BOUNDS
@@ -346,6 +361,7 @@ def c14():
         p.add("h_vm::vm_" + h, quick=q, timeout=900, bound="fields are read and updated in place through a heap reference")
     p.smt_tasks.append(SmtTask("c09_dispatch_mir", "c09_dispatch.py", quick=True, timeout=900))
     p.smt_tasks.append(VMK())
+    p.smt_tasks.append(VMH())
     p.stubs = p.stubs + VMK_STUBS
     p.functions = VM_FUNCS + VMK_FUNCS
     p.bounds = VM_BOUNDS + VMK_BOUNDS
@@ -362,8 +378,10 @@ def c16():
     for h in ("array0", "array2", "object", "twice_empty", "twice_mixed"):
         p.add("h_heap::heap_allocate_" + h, quick=True, timeout=900, drives=["Heap::allocate", "HeapObject::size"],
               bound="allocate returns the old length, appends one cell, adds exactly size() > 0, size depends on shape only")
-    p.functions = VM_FUNCS + ["heap::Heap::{allocate,set_size,verif_size (hook)}", "heap::HeapObject::size"]
-    p.bounds = VM_BOUNDS
+    p.smt_tasks.append(VMH())
+    p.stubs = p.stubs + VMK_STUBS
+    p.functions = VM_FUNCS + VMK_FUNCS + ["heap::Heap::{allocate,set_size,verif_size (hook)}", "heap::HeapObject::size"]
+    p.bounds = VM_BOUNDS + VMK_BOUNDS
     p.outside = VM_OUTSIDE + ["the CSV file itself (header, S record, timestamps, one A line per allocation): File and SystemTime are FFI; "
                               "the claim stops at `heap_log!(ALLOCATE)` being invoked once per allocate, which is read, not solved"]
     p.not_covered = VM_NOT_COVERED
